@@ -67,6 +67,8 @@ func (obj *LongFloat) Equal(other Object) (eq bool) {
 		eq = (*big.Float)(obj).Cmp(big.NewFloat(float64(to))) == 0
 	case Octet:
 		eq = (*big.Float)(obj).Cmp(big.NewFloat(float64(to))) == 0
+	case Bit:
+		eq = (*big.Float)(obj).Cmp(big.NewFloat(float64(to))) == 0
 	case SingleFloat:
 		eq = (*big.Float)(obj).Cmp(big.NewFloat(float64(to))) == 0
 	case DoubleFloat:
